@@ -186,6 +186,9 @@ func loadConfig(config string) (*Loaded, error) {
 				n++
 				et := g.Type().Underlying().(*types.Pointer).Elem()
 				o := &Object{id: n, name: sp.Pkg.Path() + "." + name, typ: et}
+				if fn := prog.Fset.Position(g.Pos()).Filename; strings.Contains(filepath.Base(fn), "zz_verif_") || sp.Pkg.Path() == verifPkgPath {
+					o.spec = true
+				}
 				ld.globals[g] = o
 				ld.baseMem[o] = safeZero(et)
 			}
